@@ -480,9 +480,16 @@ func (r *c17Run) apply(op c17Op) *verifkit.Failure {
 			ecs = append(ecs, c17RT(x))
 			rts[x] = true
 		}
-		ecs = append(ecs, bgp.NewTwoOctetAsSpecificExtended(bgp.EC_SUBTYPE_ROUTE_ORIGIN, 65001, 9, true))
+		if len(ecs) > 0 || op.Origin == 0 {
+			// a site-of-origin community behind the targets (a route without any extended community at all, which
+			// only the default membership covers, when there is no target and Origin is 1)
+			ecs = append(ecs, bgp.NewTwoOctetAsSpecificExtended(bgp.EC_SUBTYPE_ROUTE_ORIGIN, 65001, 9, true))
+		}
 		mp, _ := bgp.NewPathAttributeMpReachNLRI(bgp.RF_IPv4_VPN, []bgp.PathNLRI{{NLRI: nlri}}, netip.MustParseAddr("192.0.2.1"))
-		attrs := []bgp.PathAttributeInterface{bgp.NewPathAttributeOrigin(0), bgp.NewPathAttributeAsPath([]bgp.AsPathParamInterface{bgp.NewAs4PathParam(2, peerAS)}), mp, bgp.NewPathAttributeExtendedCommunities(ecs)}
+		attrs := []bgp.PathAttributeInterface{bgp.NewPathAttributeOrigin(0), bgp.NewPathAttributeAsPath([]bgp.AsPathParamInterface{bgp.NewAs4PathParam(2, peerAS)}), mp}
+		if len(ecs) > 0 {
+			attrs = append(attrs, bgp.NewPathAttributeExtendedCommunities(ecs))
+		}
 		_ = sess.send(bgp.NewBGPUpdateMessage(nil, attrs, nil), nil)
 		store[key] = c17Route{rd: c17RD(op.RD), prefix: c17Prefix(op.A).String(), rts: rts, fromCE: src}
 		r.logf("%s announces %s targets %v", who, key, op.RTs)
@@ -495,7 +502,10 @@ func (r *c17Run) apply(op c17Op) *verifkit.Failure {
 			other, osess, ostore, osrc, oAS = "P", r.sp, r.vpn, -1, []uint32{r.p.AS}
 		}
 		if _, has := ostore[key]; has {
-			attrs2 := []bgp.PathAttributeInterface{bgp.NewPathAttributeOrigin(0), bgp.NewPathAttributeAsPath([]bgp.AsPathParamInterface{bgp.NewAs4PathParam(2, oAS)}), mp, bgp.NewPathAttributeExtendedCommunities(ecs)}
+			attrs2 := []bgp.PathAttributeInterface{bgp.NewPathAttributeOrigin(0), bgp.NewPathAttributeAsPath([]bgp.AsPathParamInterface{bgp.NewAs4PathParam(2, oAS)}), mp}
+			if len(ecs) > 0 {
+				attrs2 = append(attrs2, bgp.NewPathAttributeExtendedCommunities(ecs))
+			}
 			_ = osess.send(bgp.NewBGPUpdateMessage(nil, attrs2, nil), nil)
 			ostore[key] = c17Route{rd: c17RD(op.RD), prefix: c17Prefix(op.A).String(), rts: rts, fromCE: osrc}
 			r.logf("%s follows with the same targets", other)
